@@ -26,7 +26,7 @@ def _freq_lit(mhz: int) -> str:
     return repr(mhz // 1000) if mhz % 1000 == 0 else repr(mhz / 1000.0)
 
 
-def _freq(s: Script, mhz: int) -> str:
+def _freq_arg(s: Script, mhz: int) -> str:
     """A frequency argument: literal, or (run-time rendering) a value read from the scripted ADC."""
     if not s.runtime:
         return _freq_lit(mhz)
@@ -42,10 +42,14 @@ def call_source(s: Script, name: str, c: dict) -> str:
     own arguments (not with its position), so a replayed single history is rendered exactly as in its batch."""
     act, a = c["act"], list(c["a"])
     kw = (sum(abs(int(x)) for x in a) + len(a)) % 2 == 1
+    fx = c.get("fx") or {}          # argument position -> expression text ({n} = the buzzer) that has the value a[pos] when it is evaluated
+
+    def _freq(s0, v, pos=None):      # noqa: ANN001
+        return fx[str(pos)].format(n=name) if pos is not None and str(pos) in fx else _freq_arg(s0, v)
     if act == "stop":
         return f"{name}.stop()"
     if act == "play_tone":
-        f = _freq(s, a[0])
+        f = _freq(s, a[0], 0)
         if a[1] == NONE:
             return f"{name}.play_tone(frequency={f})" if kw else f"{name}.play_tone({f})"
         d = s.val(a[1])
@@ -53,12 +57,12 @@ def call_source(s: Script, name: str, c: dict) -> str:
     if act == "beep":
         parts = []
         if a[0] != NONE:
-            f = _freq(s, a[0])
+            f = _freq(s, a[0], 0)
             parts.append(f"frequency={f}" if kw else f)
         parts += [f"on_ms={s.val(a[1])}", f"off_ms={s.val(a[2])}", f"times={s.val(a[3])}"]
         return f"{name}.beep({', '.join(parts)})"
     if act == "sweep":
-        f0, f1 = _freq(s, a[0]), _freq(s, a[1])
+        f0, f1 = _freq(s, a[0], 0), _freq(s, a[1], 1)
         d, k = s.val(a[2]), s.val(a[3])
         if kw:
             return f"{name}.sweep(start_hz={f0}, end_hz={f1}, duration_ms={d}, steps={k})"
